@@ -53,18 +53,19 @@ def rule_rich(tier, seed, have):
     every other case)."""
     rng = random.Random(seed * 104729 + 23)
     cand = []
-    specs = ["4 2 1 25", "2 4 1 25", "4 2 0 12", "2 4 0 12", "3 3 1 6"]
+    specs = ["4 2 1 25", "2 4 1 25", "4 2 0 12", "2 4 0 12"]
     outs = core.run_harness([f"treelist {a}" for a in specs])
     for o in outs:
         if o in ("PANIC", "BAD-OP", "limit:overflow"):
             continue
         leaves = [p for p in o.split(";") if p]
         rng.shuffle(leaves)
-        cand += [(rng.choice([300, 1000, 3000]), p) for p in leaves[:60000 if tier == "thorough" else 4000]]
+        cand += [(rng.choice([300, 1000, 3000]), p) for p in leaves[:60000 if tier == "thorough" else 5000]]
     for _ in range(20000 if tier == "thorough" else 2000):
         s, c = rng.choice([(5, 2), (3, 3), (2, 5), (6, 2), (3, 4), (4, 3)])
         cand.append((rng.choice([300, 1000, 3000]), core.rand_prog(rng, s, c, p_undef=rng.choice([0.0, 0.1]), normal=True)))
-    outs = core.run_harness([f"runprover {lim} | {p}" for lim, p in cand])
+    # screening at a short limit (long runs of rule-free programs are slow and teach nothing here)
+    outs = core.run_harness([f"runprover 250 | {p}" for lim, p in cand])
     keep = []
     seen = set(have)
     cap = 6000 if tier == "thorough" else 1200
@@ -79,16 +80,20 @@ def rule_rich(tier, seed, have):
     return keep, len(cand)
 
 
-def replay_pass(rep, tier, cases):
+def replay_pass(rep, tier, cases, first):
     """whole-run validation by the Lean-verified `replay` (BB/Model/ValidateTrace.lean): the real
     run's reported rule applications are re-validated one by one and the run is re-played with the
     plain simulator in between; whatever the replay ends in is TRUE of the L0 machine
     (BB/Props/C02.lean), with the true step count - no step budget, only a per-application one."""
     budget = 1_000_000 if tier == "thorough" else 50_000
     napps = 400 if tier == "thorough" else 150
-    sel = cases
-    lines = [f"ptrace {lim} {napps} | {p}" for lim, p in sel]
-    impl = core.run_harness(lines)
+    # applications are needed only for runs that applied a rule (known from the first pass)
+    sel = list(cases)
+    need = [k for k, (c, o) in enumerate(zip(sel, first)) if parse_kv(o).get("rulapp", "0") != "0"]
+    traced = core.run_harness([f"ptrace {sel[k][0]} {napps} | {sel[k][1]}" for k in need])
+    impl = list(first)
+    for k, o in zip(need, traced):
+        impl[k] = o
     r_lines, r_meta = [], []
     truncated = 0
     for (lim, prog), out in zip(sel, impl):
@@ -183,6 +188,47 @@ def replay_pass(rep, tier, cases):
     rep.assumptions.append(f"replay: per-application validation budget {budget} plain cycles; runs with >= {napps} applications or > 20000 cycles are not replayed (counted)")
 
 
+def confirm_infrul(rep, tier, lines, impl):
+    """An `infrul` verdict given by a rule has no certificate in the code's output.  Where one of the
+    Lean-VERIFIED deciders (repaired backward reasoner C04, closed-position-set analysis C06 with
+    repaired table size, quick recurrence C07 - all run as the Lean model, all proved sound) shows
+    that the program never halts AND never spins out, the verdict is confirmed by proof; the rest
+    stays falsifiable only.  Counts go to the evidence; nothing here can raise an alarm."""
+    progs = []
+    for line, out in zip(lines, impl):
+        r = parse_kv(out)
+        if r["result"] == "infrul" and r.get("cycles", "0") != "0":
+            pr = line.split(" | ", 1)[1]
+            if pr not in progs:
+                progs.append(pr)
+    progs = progs[:4000 if tier == "thorough" else 1200]
+    q = []
+    for pr in progs:
+        q += [f"rec 3000 | {pr}", f"cant_halt_fix 1 1 30 | {pr}", f"cant_spin_out_fix 1 1 30 | {pr}",
+              f"cps_halt_fix 5 | {pr}", f"cps_spin_out 5 | {pr}"]
+    outs = core.run_driver(q)
+    by = {"recurrence (C07)": 0, "backward reasoner, repaired (C04)": 0, "closed position set (C06)": 0}
+    conf = 0
+    for i, pr in enumerate(progs):
+        rec, ch, cs, ph, ps = outs[5 * i:5 * i + 5]
+        ok = False
+        if rec == "recur":
+            by["recurrence (C07)"] += 1
+            ok = True
+        nh = ch.startswith("refuted") or ph == "true"
+        ns = cs.startswith("refuted") or ps == "true"
+        if nh and ns:
+            if ch.startswith("refuted") and cs.startswith("refuted"):
+                by["backward reasoner, repaired (C04)"] += 1
+            if ph == "true" and ps == "true":
+                by["closed position set (C06)"] += 1
+            ok = True
+        conf += ok
+    rep.cov["infrul_by_rule_programs"] = len(progs)
+    rep.cov["infrul_by_rule_confirmed_by_a_verified_decider"] = conf
+    rep.cov["infrul_by_rule_confirmed_by"] = by
+
+
 def check(rep, tier, seed, replay):
     budget = 20_000_000 if tier == "thorough" else 1_000_000
     cases = corpus(tier, seed)
@@ -262,7 +308,8 @@ def check(rep, tier, seed, replay):
         else:
             judged += 1
             distinct.add(line.split(" | ", 1)[1] + "|" + res)
-    replay_pass(rep, tier, cases)
+    replay_pass(rep, tier, cases, impl[len(lines) - len(cases):])
+    confirm_infrul(rep, tier, lines, impl)
     # known finding F9 is about the release build of the Python extension, not reachable here
     for m in mism[:100]:
         rep.violation("correspondence", m, found_input=False)
